@@ -8,9 +8,9 @@ import (
 	"github.com/lightninglabs/pool/account"
 )
 
-// VerifNewBatchSigner exposes the unexported batchSigner to the verification
+// VerifC04NewBatchSigner exposes the unexported batchSigner to the verification
 // harness (compiled only with -tags verif through the build overlay).
-func VerifNewBatchSigner(getAccount func(*btcec.PublicKey) (*account.Account, error),
+func VerifC04NewBatchSigner(getAccount func(*btcec.PublicKey) (*account.Account, error),
 	signer lndclient.SignerClient) BatchSigner {
 
 	return &batchSigner{getAccount: getAccount, signer: signer}
